@@ -233,6 +233,29 @@ pub fn run(tier: Tier) -> ! {
             }
         }
     });
+    // long texts (30 and 64 characters) built from rotations of the alphabet, with periodic labels
+    {
+        let mut long_cases = vec![];
+        for rot in 0..sigma.len() {
+            for len in [30usize, 64] {
+                let text: Vec<char> = (0..len).map(|i| sigma[(i * (rot + 1) + rot) % sigma.len()]).collect();
+                for pat in gen::vectors(3, 2) {
+                    let labels: Vec<u8> = (0..len - 1).map(|i| pat[i % 2]).collect();
+                    long_cases.push((text.clone(), labels));
+                }
+            }
+        }
+        long_cases.par_iter().for_each(|(text, labels)| {
+            for id in 0..8 {
+                let tags = tags_for(text.len(), 2, 2);
+                chk.eval(1);
+                chk.nontrivial(1);
+                if let Some((k, what)) = check_boundary_filter(id, text, labels, 2, &tags) {
+                    chk.violation(format!("{k} filter={id} text={:?} labels={} n_tags=2", gen::s(text), lab(labels)), what, json!({"kind": "boundary", "filter": id, "text": gen::s(text), "labels": labels, "n_tags": 2, "pattern": 2}));
+                }
+            }
+        });
+    }
     // pattern tagger: every rule table over surfaces {a, ab} with tag vectors of length 0..3
     let mut vecs: Vec<Option<Vec<Option<String>>>> = vec![None];
     for len in 0..=3 {
